@@ -106,8 +106,11 @@ def run(chk):
         eps = 1e-7
         sub = rng.choice([None, 256])
         par = oqupy.TempoParameters(dt=dt, epsrel=eps, dkmax=3, subdiv_limit=sub)
-        driver = rng.choice(["tempo", "pttempo", "meanfield", "dynamics_with_field", "correlations", "controls"])
-        info = {"kind": "search", "driver": driver, "tau": tau, "start": start, "N": N, "subdiv_limit": sub}
+        drivers = ["tempo", "pttempo", "meanfield", "dynamics_with_field", "correlations", "controls", "pttempo-final", "dynamics_with_field-final"]
+        driver = drivers[it] if it < len(drivers) else rng.choice(drivers)       # every driver in every run
+        rec = not driver.endswith("-final")           # record_all=False: only the final state, labelled with ITS time
+        driver = driver.replace("-final", "")
+        info = {"kind": "search", "driver": driver, "record_all": rec, "tau": tau, "start": start, "N": N, "subdiv_limit": sub}
 
         def build(s0, sh):
             H = lambda t: 0.4 * SX + 0.3 * np.sin(1.7 * (t - sh)) * SZ
@@ -122,7 +125,7 @@ def run(chk):
                 sysm = oqupy.TimeDependentSystem(H, gammas=[G], lindblad_operators=[A])
                 pt = quiet(oqupy.pt_tempo_compute, bath, s0, s0 + N * dt + 1e-9, parameters=par, progress_type="silent")
                 if driver == "pttempo":
-                    d = quiet(oqupy.compute_dynamics, sysm, initial_state=rho0, process_tensor=pt, start_time=s0, subdiv_limit=sub, progress_type="silent")
+                    d = quiet(oqupy.compute_dynamics, sysm, initial_state=rho0, process_tensor=pt, start_time=s0, subdiv_limit=sub, record_all=rec, progress_type="silent")
                     return list(d.times), np.array(d.states)
                 if driver == "controls":
                     c = Control(2)
@@ -139,7 +142,7 @@ def run(chk):
                 d = quiet(oqupy.MeanFieldTempo(mfs, [bath], par, [rho0], 0.3 + 0j, s0).compute, s0 + N * dt + 1e-9, progress_type="silent")
             else:
                 pt = quiet(oqupy.pt_tempo_compute, bath, s0, s0 + N * dt + 1e-9, parameters=par, progress_type="silent")
-                d = quiet(oqupy.compute_dynamics_with_field, mfs, 0.3 + 0j, process_tensor_list=[pt], initial_state_list=[rho0], start_time=s0, subdiv_limit=sub, progress_type="silent")
+                d = quiet(oqupy.compute_dynamics_with_field, mfs, 0.3 + 0j, process_tensor_list=[pt], initial_state_list=[rho0], start_time=s0, subdiv_limit=sub, record_all=rec, progress_type="silent")
             return list(d.times), np.append(np.array(d.system_dynamics[0].states).reshape(-1), d.fields)
         try:
             t0, v0 = build(start, 0.0)
@@ -148,8 +151,10 @@ def run(chk):
             chk.fail("shift-raises", f"{driver} raises {ex!r}", info)
             continue
         chk.search_cases += 1
-        chk.count("search_" + driver)
-        chk.case(info, ("search", driver, tau, start, N))
+        chk.count("search_" + driver + ("" if rec else "_final_only"))
+        chk.case(info, ("search", driver, rec, tau, start, N))
+        if not rec and (len(t0) != 1 or not ulp_close(np.array(t0), np.array([start + N * dt]), 8)):
+            chk.fail("final-time-label", f"{driver}(record_all=False): the only reported time is {t0}, the final time is {start + N * dt}", info)
         if len(t0) != len(t1) or not ulp_close(np.array(t1), np.array(t0) + tau, 8):
             chk.fail("times-not-shifted", f"{driver}: reported times are not shifted by exactly tau={tau}", info)
         elif v0.shape != v1.shape or np.abs(v0 - v1).max() > 2e3 * eps:
